@@ -17,10 +17,11 @@ func propC02() *Property {
 		Explanation: "Static provenance rules: the pairing (document, URL that served it) and (object, validated id) is shown to stay intact from the socket to the item constructors. Decided: (R1) every call of an item constructor receives (object, id) as results #0/#1 of one client.FetchUnknown call with its error checked, or the parentObject/parentIdentifier pair stored from such a call under parentErr == nil; (R2) every source handed to FetchUnknown traces back to nil (user input) or to the id field of an item — which is stored only from the constructor's validated id — and inside the constructors embedded values are taken from the constructor's own object and paired with its own id; (R3) on every acyclic path of FetchUnknown to a success return (phi operands resolved along the path) the returned id is nil, or it is the id read from the returned object and the path knows that the object's paired source (the source parameter for embedded input, result #1 of the same FetchURL call for fetched input) is non-nil and has the same Host as the id; (R4) jtp.Get reports its own URL as source on success (C03.R1) and forwards triples unchanged; (R5) client.FetchURL returns the three fields of one bundle built from one jtp.Get call; (R6) there is no side door: jtp.Get, FetchURL and FetchFromFile are called only from their documented callers. Not decided: end-to-end behaviour on multi-host worlds, library URL semantics (Host normalisation, case).",
 		Assumptions: []string{"singleflight.Group.Do returns the value produced by the closure for the same key", "url.URL.Host of a parsed URL is the authority that was dialled"},
 		Rules: []Rule{
-			{ID: "C02.R1", Title: "constructors receive (object, id) pairs from one FetchUnknown call", Floor: 9, Run: c02R1},
-			{ID: "C02.R2", Title: "sources are validated ids; embedded values are paired with their own document's id", Floor: 15, Run: c02R2},
+			{ID: "C02.R1", Title: "constructors receive (object, id) pairs from one FetchUnknown call", Floor: 8, Run: c02R1},
+			{ID: "C02.R2", Title: "sources are validated ids; embedded values are paired with their own document's id", Floor: 9, Run: c02R2},
 			{ID: "C02.R3", Title: "acceptance condition on every success path of FetchUnknown", Floor: 4, Run: c02R3},
-			{ID: "C02.R5", Title: "FetchURL returns one intact (document, source, error) bundle", Floor: 4, Run: c02R5},
+			{ID: "C02.R4", Title: "what jtp.Get caches for a URL is exactly what it returns for it", Floor: 3, Run: c02R4},
+			{ID: "C02.R5", Title: "FetchURL returns one intact (document, source, error) bundle", Floor: 2, Run: c02R5},
 			{ID: "C02.R6", Title: "no side door to the fetcher", Floor: 4, Run: c02R6},
 		},
 	}
@@ -543,6 +544,84 @@ func c02R6(c *Ctx) {
 		}
 		if n == 0 {
 			c.note(d.pkg+"."+d.fn, P.Pos(fn.Pos()), FuncName(fn), "no callers")
+		}
+	}
+}
+
+// c02R4: source integrity in jtp.Get. Every cache.Add stores a bundle whose
+// (item, source, err) are the very values the frame returns right after, and
+// a success reports the frame's own URL: a later cache hit then attributes the
+// document to the same host as the first fetch did.
+func c02R4(c *Ctx) {
+	P := c.P
+	g := analyseGet(P)
+	fname := FuncName(g.fn)
+	n := 0
+	eachInstr(g.fn, func(b *ssa.BasicBlock, _ int, in ssa.Instruction) {
+		call, ok := in.(*ssa.Call)
+		if !ok || !isCacheCall(&call.Call, "Add") {
+			return
+		}
+		n++
+		// the return this store is paired with: the unique return reachable without another cache.Add
+		var ret *ssa.Return
+		for cur, steps := b, 0; cur != nil && steps < 8; steps++ {
+			if r, ok := cur.Instrs[len(cur.Instrs)-1].(*ssa.Return); ok {
+				ret = r
+				break
+			}
+			if len(cur.Succs) != 1 {
+				break
+			}
+			cur = cur.Succs[0]
+		}
+		if ret == nil {
+			c.bad(fname+"/cache-store", P.InstrPos(in), fname, "cannot pair this cache store with the return that follows it")
+			return
+		}
+		val := call.Call.Args[2]
+		u, ok := val.(*ssa.UnOp)
+		var a *ssa.Alloc
+		if ok {
+			a, _ = u.X.(*ssa.Alloc)
+		}
+		if a == nil {
+			c.bad(fname+"/cache-store", P.InstrPos(in), fname, "the cached value is not a local bundle")
+			return
+		}
+		why := ""
+		for i, name := range []string{"item", "source", "err"} {
+			sts := fieldStores(a, name)
+			if len(sts) != 1 {
+				why = "field " + name + " of the cached bundle is not assigned exactly once"
+				continue
+			}
+			stored := unwrapLoad(sts[0])
+			returned := unwrapLoad(ret.Results[i])
+			if isNilConst(stored) && isNilConst(returned) {
+				continue
+			}
+			if stored != returned && path(stored) != path(returned) {
+				why = "the cached " + name + " is not the " + name + " returned for this request: a later cache hit reports a different " + name + " than the fetch that filled the cache"
+			}
+		}
+		c.check(why == "", fname+"/cache-store", P.InstrPos(in), fname, "cached (document, source, error) = returned (document, source, error)", why)
+	})
+	c.check(n >= 1, fname+"/cache-stores", P.Pos(g.fn.Pos()), fname, fmt.Sprintf("%d cache stores analysed", n), "jtp.Get no longer stores into the cache")
+	// success returns report the frame's own URL; cache hits and redirects forward intact triples
+	for _, b := range g.fn.Blocks {
+		ret, ok := b.Instrs[len(b.Instrs)-1].(*ssa.Return)
+		if !ok || len(ret.Results) != 3 {
+			continue
+		}
+		doc, src, er := ret.Results[0], ret.Results[1], ret.Results[2]
+		switch {
+		case isNilConst(doc) && isNilConst(src):
+		case isNilConst(er):
+			c.check(src == ssa.Value(g.link), fname+"/success-source", P.InstrPos(ret), fname, "a fetched document is attributed to the URL of the response that carried it", "the source reported with a fetched document is not the URL this frame requested")
+		default:
+			kind, why := c03Forwarded(g, ret)
+			c.check(kind != "", fname+"/forwarded", P.InstrPos(ret), fname, "forwards the intact triple of "+kind, "document, source and error returned together do not come from one fetch: "+why)
 		}
 	}
 }
